@@ -57,6 +57,11 @@ CLAIMS = {
         technique="Verus unbounded proof on seglog Writer::open (the recovery scan) extracted verbatim, with the Reader behind its contract; replay on real files",
         text="For EVERY file content (every truncation length, every corruption the reader's CRC gate rejects, a torn tail, a truncation marker) a reopened writer resumes exactly at the end of the maximal run of intact records from the start offset; the flushed offset and the file cursor are at that position and nothing is buffered; reopening fails only on an I/O error, never on corruption. This is the function-level half of `recovers to a consistent prefix and continues without gap or reuse` for the segment log.",
         note="PARTIAL: only the seglog recovery scan. The Reader is assumed to satisfy its contract (read_record returns the intact record at an offset or the documented stop kind; parse_record's gate is checked under C17). NOT decided: Open*Index::hydrate (indexes events whose commit record is missing: candidate, DESIGN §10), Worker::new, DatabaseBuilder::open, rollover index files (C06), partition-sequence / stream-version continuation after reopen at database level."),
+    "C07": dict(
+        category="other", design_ref="§7 U17",
+        technique="Kani/CBMC on SLICES (R5/R4) of ClusterActor::handle_partition_read_locally and handle_stream_read_locally lifted verbatim from the actor methods, against a model database iterator and a recording reply sink; AtomicWatermark::can_read complete harness (U09)",
+        text="Bounded stand-in (the model iterator yields <= 3 events in <= 2 batches; start / end / count / watermark full-range): for ANY gapless ascending event sequence in any batching, the ReadPartition and ReadStream handlers send exactly one reply whose events are gapless from the start, at most `count`, not beyond the requested end, and ALL strictly below the confirmed watermark loaded for the call. can_read(s) == (s < watermark) for all values.",
+        note="PARTIAL: slices with async erased (valid for per-call functional postconditions, not for interleavings); the database iterator is assumed to satisfy C03's contract. NOT decided: handle_local_read (EGET), GetPartitionSequence / GetStreamVersion handlers, forwarding between nodes, that the watermark equals the quorum-confirmed prefix (C08), has_more accuracy."),
     "C08": dict(
         category="other", design_ref="§7 U09",
         technique="Kani/CBMC on update_confirmation extracted verbatim (model BTreeMap): per-call contract over arbitrary state with the maximal-watermark invariant assumed before and proved after (inductive step); complete harness for the atomic cell",
@@ -100,7 +105,6 @@ CLAIMS = {
 }
 
 NOT_APPLICABLE = {
-    "C07": "not decided in this build: the watermark gates sit inside async actor handlers (slices R4/R5 not built); only AtomicWatermark::can_read(s) == (s < get()) is under contract, reported under C08 (DESIGN A.3)",
     "C22": "not decided in this build: the response-construction slices of the async request handlers (R4/R5) were not built (DESIGN A.3)",
     "C06": "crash between sealing a segment and the background index flush: recovery of a missing/short index is not a function of the code base (DatabaseBuilder::open propagates the error), runs across a rayon pool; no contract on an existing function expresses it (DESIGN §9)",
     "C10": "cross-node agreement under message loss/reordering/crash schedules of async actors: protocol-level inductive invariant, out of reach of per-function contracts (Verus has no async, Kani no threads/network); sequential building blocks are covered under C02/C08/C12 (DESIGN §9)",
